@@ -172,37 +172,72 @@ func c06Conc() []ConcScenario {
 		out = append(out, ConcScenario{Name: "both-directions-" + k, Plans: []TunnelPlan{{Kind: k, ConnID: "A", User: "ua", IP: "10.0.0.1", Host: "ha.example:3389",
 			Script: []string{"data:client-one;", "data:client-two;", "ka", "idle"}, Chunks: [][]byte{[]byte("<host-chunk-1>"), []byte("<host-chunk-2>")}}}})
 	}
+	// the client closes the channel while the host is still writing: whatever reaches the client before the
+	// close response is a prefix of the host's stream in well-formed packets (two goroutines build packets at once)
+	for _, k := range []string{"ws", "legacy"} {
+		out = append(out, ConcScenario{Name: "close-while-host-streams-" + k, Deviation: true, Plans: []TunnelPlan{{Kind: k, ConnID: "A", User: "ua", IP: "10.0.0.1", Host: "ha.example:3389",
+			Script: []string{"data:client-one;", "recvbytes:14", "close", "drain"}, Chunks: [][]byte{[]byte("<host-chunk-1>"), []byte("<host-chunk-2>"), []byte("<host-chunk-3>")}}}})
+	}
+	// two tunnels whose hosts write at the same time: each client gets its own host's stream
+	for _, k := range []string{"ws", "legacy"} {
+		mkp := func(id string, n int) TunnelPlan {
+			return TunnelPlan{Kind: k, ConnID: id, User: "u" + id, IP: fmt.Sprintf("10.0.%d.1", n), Host: fmt.Sprintf("h%s.example:3389", strings.ToLower(id)),
+				Script: []string{"data:client-" + id + ";", "recvbytes:28", "drop"}, Chunks: [][]byte{[]byte("<host-" + id + "-chunk1>"), []byte("<host-" + id + "-chunk2>")}}
+		}
+		out = append(out, ConcScenario{Name: "two-tunnels-hosts-stream-" + k, Deviation: true, Plans: []TunnelPlan{mkp("A", 1), mkp("B", 2)}})
+	}
 	return out
 }
 
 func c06ConcCheck(sc ConcScenario) func(res *ConcResult, races []RaceReport) (string, []vsched.Violation) {
 	return func(res *ConcResult, races []RaceReport) (string, []vsched.Violation) {
 		var v []vsched.Violation
-		t := res.Tunnels[0]
 		add := func(k, d string) { v = append(v, vsched.Violation{Sig: "C06/" + k + "/" + sc.Name, Detail: d}) }
-		if t.SetupFailed != "" {
-			add("setup-failed", t.SetupFailed)
-		}
 		for _, p := range res.X.Panics() {
 			add("panic:"+shortFn(panicSite(p)), p.Value)
 		}
-		if t.StreamErr != "" {
-			add("malformed-stream-to-client", t.StreamErr)
+		var obs []string
+		for i, t := range res.Tunnels {
+			if t.SetupFailed != "" {
+				add("setup-failed", t.SetupFailed)
+			}
+			if t.StreamErr != "" {
+				add("malformed-stream-to-client", t.Plan.ConnID+": "+t.StreamErr)
+			}
+			wantHost, wantClient := "", ""
+			for _, op := range sc.Plans[i].Script {
+				if strings.HasPrefix(op, "data:") {
+					wantHost += op[5:]
+				}
+			}
+			for _, c := range sc.Plans[i].Chunks {
+				wantClient += string(c)
+			}
+			if string(t.BackendGot) != wantHost {
+				add("host-stream-differs", fmt.Sprintf("%s: host received %q, client sent %q", t.Plan.ConnID, t.BackendGot, wantHost))
+			}
+			closes := false
+			for _, op := range sc.Plans[i].Script {
+				closes = closes || op == "close"
+			}
+			switch {
+			case closes:
+				if !strings.HasPrefix(wantClient, string(t.ClientData)) {
+					add("client-stream-differs", fmt.Sprintf("%s: client received %q, which is not a prefix of the host's %q", t.Plan.ConnID, t.ClientData, wantClient))
+				}
+			case string(t.ClientData) != wantClient:
+				add("client-stream-differs", fmt.Sprintf("%s: client received %q, host wrote %q", t.Plan.ConnID, t.ClientData, wantClient))
+			}
+			obs = append(obs, fmt.Sprintf("host=%q client=%q resps=%v", t.BackendGot, t.ClientData, t.Resps))
 		}
-		if string(t.BackendGot) != "client-one;client-two;" {
-			add("host-stream-differs", fmt.Sprintf("host received %q", t.BackendGot))
-		}
-		if string(t.ClientData) != "<host-chunk-1><host-chunk-2>" {
-			add("client-stream-differs", fmt.Sprintf("client received %q", t.ClientData))
-		}
-		return fmt.Sprintf("host=%q client=%q resps=%v", t.BackendGot, t.ClientData, t.Resps), v
+		return strings.Join(obs, " | "), v
 	}
 }
 
 func c06(env *Env, rep *Report) {
 	rep.Rule = "(a) sequential, both transports: client data packets of payload sizes {0,1,2,4085,4086,4087,4096,8192,65535} alone, in every ordered pair, and selected triples, paced and in bursts, the stream of each pair also cut at offsets {1,7,8,9,10,len-1} of the second packet; data packets whose length field is actual-1, actual+1, 0, 0xFFFF; host writes of sizes {1,4086,4087,8192,65535} alone and in pairs. " +
 		"Oracle: bytes at the host == concatenation of the declared payloads (for a length field larger than the bytes carried: nothing but carried bytes may be delivered for that packet); payloads of the data packets at the client == bytes the host wrote; every data packet to the client well-formed (header length == bytes sent, payload-length field == payload). " +
-		"(b) schedules: one tunnel, client sends 2 data packets + keep-alive while the host writes 2 chunks; every schedule up to the preemption bound; both streams must arrive complete and in order. distinct_nontrivial = distinct cases (a) + distinct observations (b)."
+		"(b) schedules: one tunnel, client sends 2 data packets + keep-alive while the host writes 2 chunks; every schedule up to the preemption bound; both streams must arrive complete and in order; the client closing the channel while the host still writes (what arrives before the close response is a prefix of the host's stream, every packet well-formed); two tunnels whose hosts write at the same time (deviation bound). distinct_nontrivial = distinct cases (a) + distinct observations (b)."
 	rep.Assumptions = append(rep.Assumptions, "'several MiB' is bounded to 3 x 65535 bytes per direction", "byte patterns are position dependent (i*3+seed) so that reordering, duplication and loss change the stream")
 	sizes := []int{0, 1, 2, 4085, 4086, 4087, 4096, 8192, 65535}
 	mk := func(n int, seed byte) ([]byte, []byte) { p := pattern(n, seed); return tsgu.Data(p), p }
@@ -296,7 +331,11 @@ func c06(env *Env, rep *Report) {
 	}
 	rep.add("distinct", int64(distinct))
 	for _, sc := range scs {
-		exploreConc(env, rep, sc, bound, nil, c06ConcCheck(sc))
+		b := bound
+		if sc.Deviation && b > 3 {
+			b = 3
+		}
+		exploreConc(env, rep, sc, b, nil, c06ConcCheck(sc))
 	}
 }
 
